@@ -6,3 +6,4 @@ import Eliot.Properties.C03Fin
 #print axioms Sys.C03Fin.startRec_is_translated
 #print axioms Sys.C03Fin.buildLog_is_translated
 #print axioms Sys.C03Fin.start_log_shape
+#print axioms Sys.C03Fin.placement_shapes
